@@ -645,6 +645,57 @@ func run(e *core.Env) {
 			e.Probe("priority_class_wrapped_and_was_refused")
 		}
 	}
+	// ---- the same key-setup request is served twice (a quarter of the end-to-end runs) ----
+	// S starts a new key setup the way the hello ping does (an exchange on an object of its own);
+	// its request reaches R's live session, R seals frames under the new keys - and then a copy of
+	// the very same request is served once more (the layer above remembers handled requests for
+	// a while, not for ever). Whatever R answers the second time, no frame R seals afterwards may
+	// repeat a (key, class, number) of a frame it sealed before.
+	if !link && tp.Chance(1, 4) {
+		type pk struct {
+			key  string
+			prio bool
+			seq  uint32
+		}
+		used := map[pk]string{}
+		rh2 := &state.EncryptionSessionTestHelper{EncryptionSession: rSess.Encryption()}
+		sealAtR := func(tag string, k int) {
+			prio := tp.Chance(1, 3)
+			mt := frame.NetworkTraffic
+			if prio {
+				mt = frame.RouterCtrl
+			}
+			f, _ := R.Inst.Builder.NewFrameV1(R.IP, S.IP, mt, nil, []byte(fmt.Sprintf("%s frame %d", tag, k)), nil)
+			defer f.ReturnToPool()
+			if err := f.Seal(rSess); err != nil {
+				return
+			}
+			id := pk{string(rh2.OutKey()), prio, f.SequenceNum()}
+			if before, dup := used[id]; dup {
+				e.Fail("sequence-number-reused-under-one-key/same-setup-request-served-twice", "number %d (priority=%v) sealed %s was already sealed under the same key %s: the AEAD nonce repeats", f.SequenceNum(), prio, tag, before)
+			}
+			used[id] = tag
+		}
+		for k, n := 0, tp.Intn(6); k < n; k++ {
+			sealAtR("before the new setup", k)
+		}
+		cl := state.NewEncryptionSession()
+		ckx, ckxt, err := cl.InitKeyClientStart()
+		if err != nil {
+			e.Infra("kx: %v", err)
+		}
+		if _, _, err := rSess.Encryption().InitKeyServer(ckx, ckxt); err != nil {
+			e.Infra("kx: %v", err)
+		}
+		for k, n := 0, 1+tp.Intn(30); k < n; k++ {
+			sealAtR("after the request was served", k)
+		}
+		_, _, _ = rSess.Encryption().InitKeyServer(ckx, ckxt)
+		for k, n := 0, 1+tp.Intn(30); k < n; k++ {
+			sealAtR("after a copy of the request was served", k)
+		}
+		e.Probe("same_setup_request_served_twice")
+	}
 	if rolled && !link && len(e1p) > 0 {
 		e.Probe("prio_reset_after_rollover")
 	}
